@@ -23,6 +23,7 @@ ACTION kinds:
     {"kind":"status","status":500}                    an ICAP error status without encapsulated message
     {"kind":"close"}                                  close the connection without a reply
     {"kind":"garbage"}                                bytes that are not an ICAP response
+    {"kind":"reset"}                                  abortive close (TCP RST) without a reply
     {"kind":"200", "body_b64":..., "cl":bool, "hdrs":[[n,v]..], "chunks":[sizes], "satisfy":bool,
      "cut":[where,n], "seg":[sizes], "seg_delay":s, "status_line":..., "trailer_junk":bool}
          ICAP/1.0 200 OK with an encapsulated adapted HTTP message: for RESPMOD (or REQMOD with "satisfy") an HTTP
@@ -214,6 +215,11 @@ class _Handler(socketserver.BaseRequestHandler):
             time.sleep(act["delay"])
         if k == "close":
             ev.append("closed-no-reply")
+            return
+        if k == "reset":
+            # abortive close: RST instead of FIN
+            self.request.setsockopt(socket.SOL_SOCKET, socket.SO_LINGER, b"\x01\x00\x00\x00\x00\x00\x00\x00")
+            ev.append("reset")
             return
         if k == "garbage":
             self.request.sendall(b"\x00\x01garbage that is not ICAP\r\n\r\n")
